@@ -628,6 +628,13 @@ example : ([(1 : ℂ)] : List ℂ).getD 0 0 ≠ ([(1 : ℂ) + 1 / 1000000] : Lis
 example : primeLookup smallPrimeList 1193 = primeLookup smallPrimeList 1200 ∧
     primeLookup smallPrimeList 1192 ≠ primeLookup smallPrimeList 1193 := by decide +kernel
 
+/-- R16: a unit-modulus array that can be reference and observation at once (`[1, i]`) -/
+example : ∀ n, n < ([1, Complex.I] : List ℂ).length →
+    ([1, Complex.I] : List ℂ).getD n 0 * (starRingEnd ℂ) (([1, Complex.I] : List ℂ).getD n 0) = 1 := by
+  intro n hn
+  have : n = 0 ∨ n = 1 := by simp at hn; omega
+  rcases this with rfl | rfl <;> simp
+
 /-- R16: a history with two refills and three calls, and its snapshots -/
 example : callSnapshots (β := ℕ) (κ := ℕ) 1 [.call 7, .refill 2, .call 7, .call 8]
     = [(1, 7), (2, 7), (2, 8)] := rfl
